@@ -1,4 +1,4 @@
-import Probe.Norm
+import Norm_feasibility
 open Norm
 
 def hexVal (c : Char) : UInt8 :=
